@@ -201,6 +201,7 @@ func runC15(p *Prog, r *Report, tier string) {
 	qs := inventoryObligations(p, r, qTable, "query")
 	r.floor("query-handlers", len(qs), 19)
 	wiringObligations(p, r)
+	ctxDiscipline(p, r, allTxRoots(p))
 
 	abbr := func(s string) string { return replaceBalanced(s, "(*types.Message).Parse(", ")#0", "M") }
 
